@@ -4,6 +4,8 @@ import EaselModel.Shuffle.LemmasMsa
 import EaselModel.Shuffle.LemmasKmer
 import EaselModel.Shuffle.LemmasMarkov1
 import EaselModel.Shuffle.LemmasDP
+import EaselModel.Shuffle.LemmasQrna
+import EaselModel.Shuffle.LemmasVShuffle
 import EaselModel.Shuffle.LawfulRat
 /-! # C18 — property theorems (statements + glue only; lemmas live in Shuffle/*.lean)
 
@@ -26,8 +28,7 @@ theorem cShuffle_perm {α : Type} (s : Array α) (r : Rng) :
     outside `1..L`) untouched, residues `1..L` permuted -/
 theorem xShuffle_spec (dsq : Bytes) (L : Nat) (h : L + 2 ≤ dsq.size) (r : Rng) :
     RegionPerm 1 (1 + L) dsq (xShuffle dsq L r).1 :=
-  fyLoop_inv (fun (a : Bytes) i j => a.swapIfInBounds i j) 1 L (RegionPerm 1 (1 + L) dsq)
-    (fun a i j ha hi1 hi2 hj1 hj2 => ha.swap (by omega) i j hi1 hi2 hj1 hj2) L (Nat.le_refl _) dsq r (RegionPerm.refl _ _ _)
+  xShuffle_regionPerm dsq L h r
 
 /-! ## window shuffles: same residue counts inside every window -/
 /-- `esl_rsq_CShuffleWindows(r, s, w, shuffled)`, `w ≥ 1`: window `k` = positions `[k·w, min(L,(k+1)·w))` -/
@@ -95,6 +96,32 @@ theorem bootstrap_only_input_columns (base alen : Nat) (msa boot : Array Bytes) 
     ∀ p, p < alen → ∃ col, col < alen ∧ column (bootstrap base alen msa boot r).1 (base + p) = column msa (base + col) :=
   (bootstrap_spec base alen msa boot hsz hm hb r).done
 
+
+
+/-- `esl_msashuffle_VShuffle` (digital; `msa` rows are the arrays `ax[i][0..alen+1]`, `gap` = the alphabet's gap code `K`),
+    called with `shuf` = `msa` (in place) or a clone of it: every column `1..alen` of the result has the same multiset of
+    symbols as the input column and the same gap positions; sentinel columns, row count and row lengths are untouched.
+    The result does not depend on `inplace`'s reading path (both read the still-unmodified column). -/
+theorem vShuffle_spec (gap : UInt8) (inplace : Bool) (alen : Nat) (msa : Array Bytes)
+    (hrows : ∀ i (h : i < msa.size), alen + 2 ≤ msa[i].size) (r : Rng) :
+    VInv gap msa (alen + 1) (vShuffle gap inplace alen msa msa r).1 :=
+  vShuffleLoop_inv gap inplace msa alen hrows alen 1 msa r (Nat.le_refl _) (by omega)
+    ⟨rfl, fun _ _ => rfl, fun c h1 h2 => by omega, fun _ _ => rfl⟩
+
+/-- `esl_msashuffle_CQRNA` (`base = 0`, `isGap c` = `c` is one of the alphabet's gap characters) and
+    `esl_msashuffle_XQRNA` (`base = 1`, `isGap c` = `c == abc->K`), for `x`, `y` of equal length: lengths kept; every
+    column keeps its class `(isGap x[i], isGap y[i])` — so every gap stays where it was; the multiset of columns
+    `(x[i], y[i])` is the input's (hence also the multiset inside each class); positions outside the `L` columns untouched -/
+theorem qrna_keeps_classes (isGap : UInt8 → Bool) (x y : Bytes) (base L : Nat) (hfit : base + L ≤ x.size) (hy : y.size = x.size) (r : Rng) :
+    QInv isGap x y base L (qrna isGap x y base L r).1.1 (qrna isGap x y base L r).1.2 :=
+  qrna_spec isGap x y base L hfit hy r
+
+/-- per-class form: for each of the classes, the columns of that class are a permutation of the input's columns of that class -/
+theorem qrna_class_perm (isGap : UInt8 → Bool) (x y : Bytes) (base L : Nat) (hfit : base + L ≤ x.size) (hy : y.size = x.size) (r : Rng)
+    (gx gy : Bool) :
+    ((((qrna isGap x y base L r).1.1).zip ((qrna isGap x y base L r).1.2)).toList.filter (fun c => isGap c.1 == gx && isGap c.2 == gy)).Perm
+      ((x.zip y).toList.filter (fun c => isGap c.1 == gx && isGap c.2 == gy)) :=
+  ((qrna_spec isGap x y base L hfit hy r).zip.toList).filter _
 
 /-! ## k-mer shuffles -/
 /-- `esl_rsq_CShuffleKmers(r, s, K, shuffled)`: with `W = L / K` words and `P = L % K` leftover residues, the output's words
